@@ -62,6 +62,9 @@ pub enum Op {
     /// the application drops only this end of an established connection;
     /// the peer keeps its end open (idle pooled connection)
     CloseOne { sock: u32 },
+    /// write on this end until the peer's receive buffer is full (the peer
+    /// never reads) and more bytes are queued behind the closed window
+    Fill { sock: u32 },
 }
 
 impl Op {
@@ -75,6 +78,7 @@ impl Op {
             Op::HalfOpen { id, host, to } => json!({"op":"thalf","id":id,"host":host,"to":to.to_string()}),
             Op::Close { sock, server_first } => json!({"op":"close","sock":sock,"server_first":server_first}),
             Op::CloseOne { sock } => json!({"op":"closeone","sock":sock}),
+            Op::Fill { sock } => json!({"op":"fill","sock":sock}),
         }
     }
     pub fn from_json(v: &Value) -> Option<Op> {
@@ -102,6 +106,7 @@ impl Op {
                 to: v["to"].as_str()?.parse().ok()?,
             },
             "closeone" => Op::CloseOne { sock: u("sock")? as u32 },
+            "fill" => Op::Fill { sock: u("sock")? as u32 },
             "close" => Op::Close {
                 sock: u("sock")? as u32,
                 server_first: v["server_first"].as_bool().unwrap_or(false),
@@ -207,6 +212,10 @@ impl History {
                 Op::Close { sock, .. } => {
                     let l = labels.get(sock).cloned().unwrap_or("s?".into());
                     out.push(format!("close({l})"));
+                }
+                Op::Fill { sock } => {
+                    let l = labels.get(&(sock % 100_000)).cloned().unwrap_or("s?".into());
+                    out.push(format!("fill({l}{})", if *sock >= 100_000 { "'" } else { "" }));
                 }
                 Op::CloseOne { sock } => {
                     let l = labels.get(&(sock % 100_000)).cloned().unwrap_or("s?".into());
